@@ -20,10 +20,11 @@ Definition tok := string.
 Record dtf := { dy : Z; dmo : Z; dd : Z; dh : Z; dmi : Z; ds : Z; dus : Z; doff : option Z; dfold : Z }.
 Record tmf := { th : Z; tmi : Z; ts : Z; tus : Z; toff : option Z; tfold : Z }.
 Inductive val :=
-| VNone | VInt (z : Z) | VFloat (f : tok)
+| VNone | VBool (b : bool) | VInt (z : Z) | VFloat (f : tok)
 | VText (c : carrier) (s : string)          (* CStr: the text; otherwise: its bytes *)
 | VDec (t : tok) | VFrac (t : tok) | VUuid (t : tok) | VPath (t : tok) | VEnum (t : tok)
 | VDate (y m d : Z) | VDateTime (d : dtf) | VTime (t : tmf) | VTimeDelta (d s us : Z)
+| VPattern (t : tok)                        (* a compiled re.Pattern *)
 | VOther (t : tok).
 Inductive tkind := KDate | KDateTime | KTime | KTimeDelta.
 (* pendulum.parse(exact=False): DateTime or Duration *)
@@ -50,7 +51,14 @@ Record Runtime := {
   timestamp : dtf -> res tok;                  (* aware datetime .timestamp() *)
   td_total_seconds : Z * Z * Z -> tok;         (* timedelta.total_seconds() *)
   td_of_seconds : val -> res (Z * Z * Z);      (* timedelta(seconds=x), x int or float *)
-  is_digit_str : string -> bool                (* s.isdigit() or s.isdecimal() *)
+  is_digit_str : string -> bool;               (* s.isdigit() or s.isdecimal() *)
+  is_member : tok -> bool;                     (* isinstance(m, E) for the enum class at hand *)
+  enum_base : tok -> option val;               (* the member as an instance of its data-type mixin: the str of a
+                                                  (str, Enum) member, the int of an IntEnum member; None: plain Enum *)
+  py_eq : val -> val -> bool;                  (* x == y, where the model does not decide it itself (floats, Decimal ...) *)
+  truthy : val -> res bool;                    (* bool(x), where the model does not decide it itself *)
+  re_compile : string -> res tok;              (* re.compile(s), s a str *)
+  pattern_text : tok -> val                    (* p.pattern: a str or a bytes object *)
 }.
 
 Section WithRuntime.
@@ -66,6 +74,15 @@ Definition decode (v : val) : res val :=
   | VText CStr _ => Ok v
   | VText _ b => utf8_decode rt b >>= fun s => Ok (VText CStr s)
   | _ => Ok v end.
+
+(* what an isinstance test against a builtin class sees: a member of a mixin enum IS a str / an int ... *)
+Definition view (v : val) : val :=
+  match v with VEnum m => match enum_base rt m with Some b => b | None => v end | _ => v end.
+(* isinstance(v, str) *)
+Definition as_str (v : val) : option string := match view v with VText CStr s => Some s | _ => None end.
+(* isinstance(v, int), bool included: the int it is *)
+Definition b2z (b : bool) : Z := if b then 1 else 0.
+Definition as_int (v : val) : option Z := match view v with VInt z => Some z | VBool b => Some (b2z b) | _ => None end.
 
 Definition is_temporal (v : val) : bool :=
   match v with VDate _ _ _ | VDateTime _ | VTime _ | VTimeDelta _ _ _ => true | _ => false end.
